@@ -3,4 +3,4 @@
 from .timeseries import limit_signal
 from .dataframes import (limit_df, get_extrema_df, rename_extrema_df,
                          split_samples_df, drop_samples_df, epoch_df, flatten_dfs)
-from .checks import check_param_range, check_param_options
+from .checks import check_param_range, check_param_options, check_sig_dtype
